@@ -9,7 +9,7 @@ TARGETS = ['clastic.sinter.inject', 'clastic.sinter.make_chain']
 
 # the dispatch loop contract is proof support shared with C06-C08; C02's own clauses are
 # the at-call obligations, execute/execute_error/inject, the lemmas and the template/text checks
-OWN = [r'at-call', r'/frame$', r'BoundRoute\.execute', r'sinter\.inject', r'sinter\.make_chain', r'^C02\.', r'^bounded:']
+OWN = [r'at-call', r'/frame$', r'BoundRoute\.execute', r'sinter\.inject', r'sinter\.make_chain', r'^C02\.', r'^bounded:', r'BoundRoute\.__init__.*/ensures\[3\]']
 
 CANARIES = [
     {'name': 'execute-resources-override-caller', 'file': 'clastic/route.py',
@@ -48,6 +48,10 @@ def build(pc, E, canary=None):
     pc.add_functions(E, TARGETS)
     import contracts.route as R
     R.verify_execute(pc, E)
+    pc._dispatch_support_done = {'execute'}
+    R.dispatch_support(pc, E)
+    # what a re-bound route offers as resources (C10's view clause) decides what execute can hand on
+    pc.add_functions(E, ['clastic.route.BoundRoute.__init__'])
     heavy = canary is None or canary['file'].endswith('application.py')
     if heavy:
         pc.add_functions(E, ['clastic.application.Application.dispatch#C02'])
